@@ -15,7 +15,8 @@ C27 — the specification side: what "stored data stays usable" means.
 
 Assumptions of this spec (guaranteed by the checker for deployed code, not by the validator): nominal
 types resolve at contract level (type declarations are nested in contracts only); a built-in type name is
-not redeclared by the contract; only direct conformances are considered.
+not redeclared by the contract.  Conformance is the transitive one: a composite conforms to `I` when it
+lists `I`, or lists an interface `J` declared in the contract that (transitively) conforms to `I`.
 -/
 namespace Verif.Spec.Update
 open Verif.Model.Update
@@ -84,6 +85,14 @@ structure Env where
 
 def Env.scope (e : Env) : Scope := { root := e.root.name, imports := e.imports }
 
+/-- the declaration conforms to the interface type `i`: directly, or through an interface `J` declared
+in the contract (type declarations are nested in contracts only, so `J` is a child of the root) -/
+inductive Conforms (e : Env) : Decl → CName → Prop where
+  | direct {d : Decl} {i : CName} (c : Nominal) : c ∈ d.confs → canon e.scope c = i → Conforms e d i
+  | via {d : Decl} {i : CName} (c : Nominal) (x : String) (j : Decl) : c ∈ d.confs →
+      canon e.scope c = .loc [x] → child e.root x = some j → j.shape = .interface →
+      Conforms e j i → Conforms e d i
+
 /-! ## stored values -/
 
 inductive Val where
@@ -112,7 +121,7 @@ def hasType (e : Env) : Val → CTy → Prop
     ∃ d, lookupPath e.root p = some d ∧ valueKind d.kind = true ∧
       (∀ f ∈ d.fields, fieldTyped e names vals f.name (denote e.scope f.ty)) ∧
       (t = .nominal (.loc p) ∨
-        (∃ is, t = .inter is ∧ d.shape = .composite ∧ ∀ i ∈ is, ∃ c ∈ d.confs, canon e.scope c = i))
+        (∃ is, t = .inter is ∧ d.shape = .composite ∧ ∀ i ∈ is, Conforms e d i))
   | .enumv p raw, t =>
     ∃ d, lookupPath e.root p = some d ∧ d.kind = .enum ∧ raw < d.cases.length ∧ t = .nominal (.loc p)
 /-- the composite value has a field `name` holding a value of type `t` -/
@@ -151,7 +160,7 @@ structure NodeCompat (so sn : Scope) (o n : Decl) : Prop where
   name : o.name = n.name
   fields : ∀ nf ∈ n.fields, ∃ of ∈ o.fields, of.name = nf.name ∧ denote so of.ty = denote sn nf.ty
   cases : o.cases <+: n.cases
-  confs : o.shape = .composite → ∀ oc ∈ o.confs, ∃ nc ∈ n.confs, canon so oc = canon sn nc
+  confs : o.shape ≠ .attachment → ∀ oc ∈ o.confs, ∃ nc ∈ n.confs, canon so oc = canon sn nc
 
 /-- the old and the new declaration tree agree on every path that is still declared -/
 def PathCompat (so sn : Scope) (old new : Decl) : Prop :=
@@ -162,5 +171,10 @@ def PathCompat (so sn : Scope) (old new : Decl) : Prop :=
 def RemovalJustified (old new : Decl) : Prop :=
   ∀ p x od oc nd, lookupPath old p = some od → child od x = some oc → lookupPath new p = some nd →
     child nd x = none → x ∈ removedNames nd.pragmas ∧ oc.kind.isInterface = false
+
+/-- the names of the nested type declarations are pairwise different at every level of the tree
+(the checker rejects a redeclaration) -/
+def NoDupNames (root : Decl) : Prop :=
+  ∀ p d, lookupPath root p = some d → ((d.composites ++ d.attachments ++ d.interfaces).map (·.name)).Nodup
 
 end Verif.Spec.Update
